@@ -949,3 +949,50 @@ func TravWitnesses() []*TravCase {
 		{Sel: SelRec(2, SelUnion(A(M()), A(E())), ""), Root: deep},                         // shared_depth alone
 	}
 }
+
+// RunCapped is Run without controls that gives up (class "cap") after max events: selectors with several
+// edges per sequence can make a walk exponentially long.
+func (env *TravEnv) RunCapped(matching bool, max int) ([]TravEvent, string) {
+	var evs []TravEvent
+	lsys := env.LSys
+	inner := lsys.StorageReadOpener
+	capped := errors.New("cap")
+	lsys.StorageReadOpener = func(lc linking.LinkContext, l datamodel.Link) (io.Reader, error) {
+		evs = append(evs, TravEvent{Load: true, Cid: l.Binary()})
+		if len(evs) > max {
+			return nil, capped
+		}
+		return inner(lc, l)
+	}
+	cfg := &traversal.Config{
+		Ctx:        context.Background(),
+		LinkSystem: lsys,
+		LinkTargetNodePrototypeChooser: func(datamodel.Link, linking.LinkContext) (datamodel.NodePrototype, error) {
+			return basicnode.Prototype.Any, nil
+		},
+	}
+	prog := traversal.Progress{Cfg: cfg}
+	visit := func() error {
+		evs = append(evs, TravEvent{})
+		if len(evs) > max {
+			return capped
+		}
+		return nil
+	}
+	err := Safely(func() error {
+		if matching {
+			return prog.WalkMatching(env.RootNode, env.Sel, func(traversal.Progress, datamodel.Node) error { return visit() })
+		}
+		return prog.WalkAdv(env.RootNode, env.Sel, func(traversal.Progress, datamodel.Node, traversal.VisitReason) error { return visit() })
+	})
+	if err != nil && (errors.Is(err, capped) || strings.Contains(err.Error(), "cap")) && len(evs) > max {
+		return evs, "cap"
+	}
+	if IsPanic(err) {
+		if strings.Contains(err.Error(), "Traversed Explore Recursive Edge") {
+			return evs, "panic:edge"
+		}
+		return evs, "panic:other"
+	}
+	return evs, WalkErrClass(err)
+}
